@@ -180,7 +180,13 @@ class Run:
                     self.handles[b.idx] = (b, None)
                 if self.ref is not None:
                     rb = r2.ref
-                    for i in sorted(rb.nodes):
+                    # hierarchy (breadth-first, children in child order): the image keeps B's child order
+                    todo, seq = [0], []
+                    while todo:
+                        i = todo.pop(0)
+                        seq.append(i)
+                        todo.extend(rb.nodes[i]["children"])
+                    for i in seq:
                         nd = rb.nodes[i]
                         par = mp[nd["parent"]] if nd["parent"] is not None else (parent if parent is not None else 0)
                         self.ref.add_node(mp[i], nd["label"], par, r2.h[r2.node(i)]._num_outs, dict(nd["meta"]))
